@@ -28,7 +28,7 @@ PROP_MODULES = {
     "C11": ["Tramp.Props.C11"],
     "C06": ["Tramp.Props.C06", "Tramp.Props.C06Live", "Tramp.Props.C06Term", "Tramp.Props.C06Fair", "Tramp.Props.C11", "Tramp.Props.C17"],
     "C09": ["Tramp.Props.C09"],
-    "C14": ["Tramp.Props.C14", "Tramp.Props.C14Live", "Tramp.Props.C14Term"],
+    "C14": ["Tramp.Props.C14", "Tramp.Props.C14Live", "Tramp.Props.C14Term", "Tramp.Props.C14Fair"],
 }
 
 # property -> theorem names (in namespace Tramp) = the proof obligations
@@ -74,7 +74,7 @@ OBLIGATIONS = {
             "keep_step", "owner_step_result", "FairRun.stuck_contra", "FairRun.c06_fair_run_answers"],
     "C09": ["c09_succeeded_settles", "c09_free_settles", "c09_pending_completed_settles", "c09_stale_pending_frees",
             "c09_pending_pays", "c09_from_wait", "c09_pinned_wedge"],
-    "C14": ["c14_frame", "c14_own_state_only", "c14_frozen", "c14_no_pooling", "lift_run", "c14_progress_despite_frozen", "grun_reach", "c14_progress_despite_frozen_global", "c01_global", "c02_global", "c05_global", "c08_global", "c04_global", "c11_global", "rh_wf", "c14_no_infinite_internal_run"],
+    "C14": ["c14_frame", "c14_own_state_only", "c14_frozen", "c14_no_pooling", "lift_run", "c14_progress_despite_frozen", "grun_reach", "c14_progress_despite_frozen_global", "c01_global", "c02_global", "c05_global", "c08_global", "c04_global", "c11_global", "rh_wf", "c14_no_infinite_internal_run", "GFairRun.c14_fair_run_answers"],
     "C19": ["c19_iff", "c19_refuses_deltas", "c19_faithful", "c19_retry_cap"],
     "C20": ["c20_max", "c20_monotone", "c20_poll_catches_up", "c20_serve_truthful", "c20_timer_armed", "c20_timer_fires"],
 }
